@@ -266,7 +266,12 @@ def b_rules(p: Project, rep: Report):
             mp = {k.value: text(v) for k, v in zip(d.keys, d.values) if isinstance(k, ast.Constant)}
             if set(mp.values()) == {"OFXHeaderV1", "OFXHeaderV2"}:
                 mj = major_of(sub.slice)
-                if mj is None:
+                lead = any(isinstance(x, ast.Subscript) and text(x.slice) == "0" and isinstance(x.value, ast.Call) and text(x.value.func) == "str" for x in ast.walk(mx.x(sub.slice)))
+                if mj is None and lead:
+                    ok = False
+                    rep.check("B-R3", "make_header:routing-table", False, f"versions are routed by their LEADING DIGIT ({mx.t(sub.slice)[:60]}), not by int(version) // 100: 1 and 10..19 are taken for version 1xx and get a header instead of being refused", hloc(p, mfn))
+                    ok = "reported"
+                elif mj is None:
                     rep.note(f"B-R3 undecided: routing index {mx.t(sub.slice)[:60]} not recognised")
                     ok = None
                 else:
@@ -278,7 +283,9 @@ def b_rules(p: Project, rep: Report):
                         routed_names.add(t_.id)
                 if isinstance(par_, ast.Call) and par_.func is sub:
                     routed_names.add("<direct>")
-    if ok is not None:
+    if ok == "reported":
+        pass
+    elif ok is not None:
         rep.check("B-R3", "make_header:routing-table", ok, "versions are not routed {1: OFXHeaderV1, 2: OFXHeaderV2}[int(version) // 100]" if not ok else "", hloc(p, mfn))
     elif not routed_names:
         rep.note("B-R3 undecided: no {1: OFXHeaderV1, 2: OFXHeaderV2} routing table found in make_header")
